@@ -115,7 +115,7 @@ def main(pid=None, rep=None, finish=True):
             got, detail = run_case(st)
             n += 1
             want = st["out"]
-            semi = st["path"] == "semicolon" or st["token"] in ("semicolon", "sizeInside", "space") or st["mime"] == "param"
+            semi = st["path"] == "semicolon" or st["token"] in ("semicolon", "sizeInside") or st["mime"] == "param"
             safe = True
             bad = []
             if got["k"] == "parsed":
